@@ -7,6 +7,7 @@ TOK = re.compile(r'''
   | (?P<str>c"(?:[^"\\]|\\[0-9A-Fa-f]{2}|\\\\)*")
   | (?P<qid>[%@]"(?:[^"\\]|\\.)*")
   | (?P<id>[%@][-a-zA-Z$._0-9]+)
+  | (?P<dq>"(?:[^"\\]|\\.)*")
   | (?P<meta>![-a-zA-Z$._0-9]*(?:\([^)]*\))?)
   | (?P<attrgrp>\#\d+)
   | (?P<fp>-?\d+\.\d+(?:e[+-]?\d+)?|0x[0-9A-Fa-f]+)
@@ -1176,21 +1177,40 @@ class Emit:
             e = '%s(%s)' % (cname(callee), A)
         elif callee in s.vslot and s.opts.get('devirt', True):
             cands = []
+            def compat(a, b):
+                if repr(a) == repr(b): return True
+                return isinstance(a, TPtr) and isinstance(b, TPtr) and isinstance(a.t, (TNamed, TStruct)) and isinstance(b.t, (TNamed, TStruct))
             for fn, ft in s.vtslots.get(s.vslot[callee], []):
                 if len(ft.args) != len(args) or repr(ft.ret) != repr(rt) or ft.va: continue
-                if [repr(a) for a in ft.args[1:]] != [repr(t) for t, _ in args[1:]]: continue
+                if not all(compat(a, t) for a, (t, _) in zip(ft.args, args)): continue
                 cands.append((fn, ft))
             fp = s.lv(callee)
             parts = []
-            rest = ', '.join(V(t, v) for t, v in args[1:])
             for fn, ft in cands:
-                a0 = '(%s)%s' % (s.ctype(ft.args[0]), V(*args[0]))
-                ce = '%s(%s%s)' % (cname(fn), a0, (', ' + rest) if rest else '')
+                al = ', '.join(('(%s)%s' % (s.ctype(a), V(t, v))) if repr(a) != repr(t) else V(t, v) for a, (t, v) in zip(ft.args, args))
+                ce = '%s(%s)' % (cname(fn), al)
                 if not isinstance(rt, TVoid) and dst is not None:
                     loc[dst] = s.ctype(rt)
                     ce = '%s = %s' % (s.lv(dst), ce)
                 parts.append('if ((void*)%s == (void*)&%s) { %s; }' % (fp, cname(fn), ce))
             parts.append('{ __CPROVER_assert(0, "ll2c: virtual call through slot %d has no known target"); __CPROVER_assume(0); }' % s.vslot[callee])
+            return ' else '.join(parts)
+        elif s.opts.get('devirt', True):
+            # indirect call through a plain function pointer (std::function invoker/manager, callbacks):
+            # explicit dispatch over the defined functions of exactly this LLVM type -- CBMC's own
+            # signature-compatibility over-approximation makes std::function recurse into unrelated code.
+            sig = repr(TFn(rt, [t for t, _ in args], False))
+            cands = [fn for fn, ft in s.m.fsigs.items() if repr(ft) == sig and not fn.startswith('@llvm.') and (s.keep is None or fn in s.keep)
+                     and any(f2['name'] == fn and f2['blocks'] is not None for f2 in s.m.funcs)]
+            fp = s.lv(callee) if not callee.startswith('@') else cname(callee)
+            parts = []
+            for fn in cands:
+                ce = '%s(%s)' % (cname(fn), A)
+                if not isinstance(rt, TVoid) and dst is not None:
+                    loc[dst] = s.ctype(rt)
+                    ce = '%s = %s' % (s.lv(dst), ce)
+                parts.append('if ((void*)%s == (void*)&%s) { %s; }' % (fp, cname(fn), ce))
+            parts.append('{ __CPROVER_assert(0, "ll2c: indirect call has no known target of its type"); __CPROVER_assume(0); }')
             return ' else '.join(parts)
         else:
             e = '%s(%s)' % (s.lv(callee), A)
